@@ -209,6 +209,24 @@ func (p *vRHDecline) PostProcessAfterInstantiation(c any, n string) (bool, error
 	return nd.Bool(), nil
 }
 
+// a user processor with a transient fault: the first initialization of a component other than the
+// holder fails once (when armed); every later call succeeds
+type vRHFlaky struct {
+	processors.DefaultInstantiationAwareComponentPostProcessor
+	armed bool
+	fired bool
+}
+
+func (p *vRHFlaky) LazyInit()  {}
+func (p *vRHFlaky) Order() int { return 9 }
+func (p *vRHFlaky) PostProcessBeforeInitialization(c any, n string) (any, error) {
+	if p.armed && !p.fired && n != "holder" {
+		p.fired = true
+		return nil, errBoom
+	}
+	return c, nil
+}
+
 type vStubFactory struct {
 	container.Factory
 	reg container.DefinitionRegistry
@@ -222,6 +240,7 @@ type vRH struct {
 	f       *defaultFactory
 	scanner []container.DefinitionRegistryPostProcessor
 	cfg     *vRHCfg
+	flaky   *vRHFlaky
 }
 
 func newRH() *vRH { return newRHOrder(nd.Param("PORDER", 1) == 1) }
@@ -252,12 +271,25 @@ func newRHOrder(orderMix bool) *vRH {
 	if orderMix && nd.Bool() {
 		ps = []container.ComponentPostProcessor{cq, fm, fn, dep}
 	}
+	if nd.Param("DUPPROC", 0) == 1 {
+		// a second candidate-collecting processor (the library's own by-type collector) next to the default one:
+		// every by-type candidate is nominated twice
+		ta := processors.NewDependencyTypeAwarePostProcessors()
+		nd.Assert(ta.(container.ComponentFactoryPostProcessor).PostProcessComponentFactory(sf) == nil, "factory post-processing ok")
+		ps = append(ps, ta)
+		nd.Cover("candidates nominated by two processors")
+	}
+	var flaky *vRHFlaky
+	if nd.Param("FLAKY", 0) == 1 {
+		flaky = &vRHFlaky{armed: nd.Bool()}
+		ps = append(ps, flaky)
+	}
 	for _, p := range ps {
 		f.postProcessorRegistrationDelegate.RegisterComponentPostProcessors(p, "p")
 	}
 	err := f.postProcessorRegistrationDelegate.InvokeBeanFactoryPostProcessors(f, nil)
 	nd.Assert(err == nil, "processor registration ok")
-	return &vRH{f: f, cfg: cfg, scanner: []container.DefinitionRegistryPostProcessor{dep.(container.DefinitionRegistryPostProcessor), fn.(container.DefinitionRegistryPostProcessor)}}
+	return &vRH{f: f, cfg: cfg, flaky: flaky, scanner: []container.DefinitionRegistryPostProcessor{dep.(container.DefinitionRegistryPostProcessor), fn.(container.DefinitionRegistryPostProcessor)}}
 }
 
 func (r *vRH) register(c any, name string) *component_definition.Meta {
@@ -431,6 +463,12 @@ func VerifC06() {
 	}
 	nd.Assert(nprops == 1, "C11: the scanner registered exactly the tagged field")
 	_, err := r.f.doGetComponent("holder")
+	if err != nil && r.flaky != nil && r.flaky.fired {
+		// the first attempt hit the transient fault: nothing of it stays visible, the re-attempt starts from scratch
+		nd.Cover("creation re-attempted after a transient failure")
+		_, err = r.f.doGetComponent("holder")
+		nd.Assert(err == nil, "C04: after a failed creation a later lookup re-attempts it")
+	}
 	var expected []any
 	for i, p := range ps {
 		if vCompatible(kind, ts[i]) {
@@ -700,6 +738,21 @@ func VerifC07() {
 		ts = append(ts, t)
 	}
 	h, single, _ := vHolder(kind)
+	// the application may have put a built-in default (not a component) into the field before start-up
+	var untouched any
+	if nd.Param("PRESET", 1) == 1 && nd.Bool() {
+		builtin := &vPA{vAttr{id: 99, nm: "builtin"}}
+		switch x := h.(type) {
+		case *vHPtr:
+			x.F = builtin
+		case *vHIface:
+			x.F = builtin
+		case *vHAny:
+			x.F = builtin
+		}
+		untouched = builtin
+		nd.Cover("field holds a built-in default before start-up")
+	}
 	hm := r.register(h, "holder")
 	for _, p := range ps {
 		r.register(p, vProviderName(p))
@@ -746,7 +799,7 @@ func VerifC07() {
 		if optional {
 			nd.Cover("optional point, no such component")
 			nd.Assert(err == nil, "C07: an optional by-name point that cannot be satisfied never fails start-up")
-			nd.Assert(single() == nil, "C07: an optional by-name point that cannot be satisfied leaves the field untouched")
+			nd.Assert(single() == untouched, "C07: an optional by-name point that cannot be satisfied leaves the field untouched")
 		} else {
 			nd.Assert(err != nil, "C07: a required by-name point without a matching assignable component is reported as an error")
 		}
@@ -1224,4 +1277,60 @@ func VerifC06Returns() {
 	if wantPre > 0 && wantXs > 0 {
 		nd.Cover("both func points populated")
 	}
+}
+
+// C06 with a sealed interface (unexported methods): implementers may have fewer exported methods
+// than the interface has methods in total
+type vSealed interface {
+	M1() int
+	sealed()
+	sealed2()
+}
+
+type vSealA struct{ id int }
+
+func (p *vSealA) M1() int  { return p.id }
+func (p *vSealA) sealed()  {}
+func (p *vSealA) sealed2() {}
+
+type vSealB struct{ id int }
+
+func (p *vSealB) M1() int  { return p.id }
+func (p *vSealB) Extra()   {}
+func (p *vSealB) Extra2()  {}
+func (p *vSealB) Extra3()  {}
+func (p *vSealB) sealed()  {}
+func (p *vSealB) sealed2() {}
+func (p *vSealB) Primary() {}
+
+type vSealHolder struct {
+	One vSealed   `wire:""`
+	All []vSealed `wire:""`
+}
+
+func VerifC06Sealed() {
+	r := newRHOrder(false)
+	a, b := &vSealA{id: 1}, &vSealB{id: 2}
+	withB := nd.Bool()
+	h := &vSealHolder{}
+	r.register(h, "holder")
+	r.register(a, "a")
+	if withB {
+		r.register(b, "b")
+	}
+	// an unrelated implementer of the exported part only
+	r.register(&vPA{vAttr{id: 9, nm: "pa"}}, "pa")
+	_, err := r.f.doGetComponent("holder")
+	nd.Assert(err == nil, "C06: a point whose interface has unexported methods is populated by its implementers")
+	if err != nil {
+		return
+	}
+	if withB {
+		nd.Assert(h.One == vSealed(b), "C08: the primary implementer wins the single-valued point")
+		nd.Assert(len(h.All) == 2, "C06: a slice point receives every implementer of a sealed interface exactly once")
+	} else {
+		nd.Assert(h.One == vSealed(a), "C06: a single-valued point receives the only implementer")
+		nd.Assert(len(h.All) == 1 && h.All[0] == vSealed(a), "C06: a slice point receives every implementer of a sealed interface exactly once")
+	}
+	nd.Cover("sealed interface")
 }
